@@ -345,6 +345,7 @@ class Interp:
         self.fit_log: list = []                    # (call node, args, kwargs, depth) of every estimator.fit(...) met, in order
         self.views: dict = {}                      # (function, local name) -> (viewed Name node, start, stop): v = a[lo:hi]
         self.aliases: dict = {}                    # (function, local name) -> Attribute node `obj.attr` the local is another name of
+        self._tuple_elts: dict = {}                # (function, local name) -> element expressions of the literal tuple the local was bound to
         self._gbusy: set = set()
         self.keep_astype = False                   # keep x.astype(t) visible in value forms instead of treating it as the identity
         self.unroll_literal_loops = True           # execute `for row in <literal table>` row by row instead of abstracting the loop
@@ -648,6 +649,19 @@ class Interp:
                 if isinstance(stmt, ast.Assign) and len(stmt.targets) == 1 and stmt.targets[0] is t and isinstance(val_node, ast.Attribute) and isinstance(v, Form) \
                         and v.const_value() is None:
                     self.aliases[(id(fi), t.id)] = val_node        # `a = obj.field`: the same array under another name
+            # a name bound to a literal tuple (directly, or as the decided arm of a conditional expression) remembers the expressions
+            # it was built from: `for f in names:` over (obj.a, obj.b) then lets f stand for the arrays themselves
+            self._tuple_elts.pop((id(fi), t.id), None)
+            if isinstance(stmt, ast.Assign) and len(stmt.targets) == 1 and stmt.targets[0] is t and isinstance(v, TupleV):
+                tn = val_node
+                for _ in range(3):
+                    if isinstance(tn, ast.IfExp):
+                        tv_ = self.truth(tn.test, st, fi, depth)
+                        tn = tn.body if tv_ is True else tn.orelse if tv_ is False else None
+                    else:
+                        break
+                if isinstance(tn, (ast.Tuple, ast.List)) and len(tn.elts) == len(v.items) and not any(isinstance(e, ast.Starred) for e in tn.elts):
+                    self._tuple_elts[(id(fi), t.id)] = list(tn.elts)
             if isinstance(stmt, ast.Assign) and len(stmt.targets) == 1 and stmt.targets[0] is t and isinstance(val_node, ast.Subscript) \
                     and isinstance(val_node.value, ast.Name) and isinstance(val_node.slice, ast.Slice) and val_node.slice.step is None \
                     and isinstance(st.env.get(val_node.value.id), Form):
@@ -1066,6 +1080,8 @@ class Interp:
         cur = State(fork_env(st.env), st.facts.copy(), list(st.conds))
         broke = None
         elts = s.iter.elts if isinstance(s.iter, (ast.Tuple, ast.List)) and len(s.iter.elts) == len(it.items) and not any(isinstance(e, ast.Starred) for e in s.iter.elts) else None
+        if elts is None and isinstance(s.iter, ast.Name) and len(self._tuple_elts.get((id(fi), s.iter.id), ())) == len(it.items):
+            elts = self._tuple_elts[(id(fi), s.iter.id)]
         k_ = 0
         for item in it.items:
             if not cur.live:
